@@ -12,7 +12,7 @@ ASSUMPTIONS = [
 ]
 RULE = ("complete cross product {objective, fun=None} x {1..3 nonlinear constraint objects, "
         "scalar/vector, NonlinearConstraint/dict} x {linear constraint or not} x scale x bound patterns "
-        "with fixed variables x disp; thorough adds single NaN/inf deviations at every evaluation. "
+        "with fixed variables x disp, plus variants whose user functions overwrite the array they receive; thorough adds single NaN/inf deviations at every evaluation. "
         "A case is non-trivial when its run contains at least one main-loop evaluation; distinct = "
         "distinct canonical observation (bit-exact call log + result).")
 
@@ -64,6 +64,11 @@ def roots(tier, seed):
                                 case["tag"]["form"] = form
                                 case["explore"] = 1 if (tier == "thorough" and not disp) else 0
                                 out.append(case)
+                                if not disp and form == "nlc" and cons in ("ball_le", "nl_vec", "two_nl", "lin+nl"):
+                                    c2 = dict(case)
+                                    c2["scribble"] = True  # user functions overwrite their argument
+                                    c2["explore"] = 0
+                                    out.append(c2)
     return alpha.permute(out, seed)
 
 
